@@ -293,8 +293,12 @@ class MachineGen:
             us = rng.choice((1000, 5000, 10000, 20000, 50000))
             out.append(self.act(f"slow_{us}", [["slow", us]]))
         if rng.random() < p["p_async_act"]:
-            k = rng.randint(1, 3)
-            out.append(self.act(f"yield_{k}", [["yield", k]], **{"async": True}))
+            if p.get("p_async_sleep") and rng.random() < p["p_async_sleep"]:
+                us = rng.choice((2000, 5000, 10000, 20000))
+                out.append(self.act(f"asleep_{us}", [["sleep", us]], **{"async": True}))
+            else:
+                k = rng.randint(1, 3)
+                out.append(self.act(f"yield_{k}", [["yield", k]], **{"async": True}))
         if rng.random() < p["p_choose"] and (where == "trans" or not p.get("rich_guards")):
             self.nchoose = getattr(self, "nchoose", 0) + 1
             cid = self.nchoose
